@@ -23,8 +23,8 @@ TARGET = 'checks.c12:run'
 SHAPES = [[3], [2, 3], [2, 1, 3]]
 
 
-def items_for(d):
-    """JSON descriptions of per-axis index items for an axis of size d."""
+def items_for(d, extra=False):
+    """JSON descriptions of per-axis index items for an axis of size d (extra: leaves of rank <= 2 only)."""
     its = [['int', i] for i in range(-d, d)]
     its += [['sl', None, None, None], ['sl', 0, 2, None], ['sl', None, None, -1], ['sl', 1, None, 2]]
     its += [['a1', [0, -1, 0]], ['a2', [[0, d - 1], [d - 1, -1]]], ['a2', [list(range(d)) + [0]]], ['au', [d - 1, 0] if d > 1 else [0]]]
@@ -32,6 +32,10 @@ def items_for(d):
     mask[0] = True
     mask[-1] = True
     its += [['mask', mask]]
+    if extra:
+        # one-element and 0-d integer arrays, unsigned dtypes, and a second 1-D array of the same shape and dtype as the
+        # first but other contents
+        its += [['a1', [d - 1]], ['a0', d - 1], ['a1', [0, d - 1, 0], 'uint8'], ['a1', [d - 1, 0, 0, 0], 'uint32'], ['a1', [d - 1, d - 1, -d]]]
     return its
 
 
@@ -39,7 +43,7 @@ def tuples_for(shape):
     """All index tuples: L items without ellipsis (addressing the first L axes), and head + Ellipsis + tail where the
     tail items address the LAST axes (their descriptions are taken from those axes)."""
     out = []
-    per_axis = [items_for(d) for d in shape]
+    per_axis = [items_for(d, extra=len(shape) <= 2) for d in shape]
     r = len(shape)
     for L in range(0, r + 1):
         for combo in (itertools.product(*per_axis[:L]) if L else [()]):
@@ -83,7 +87,11 @@ def plan(tier, seed):
             for kind in ('I', 'IQU'):
                 for trailing in ([3], [2, 2]):
                     pack.append({'pack': list(m), 'stokes': kind, 'trailing': trailing})
+    # one element hit so often that a count accumulated in the data dtype would stop growing (2048 in float16, 256 in bfloat16)
+    many = [{'many': n, 'dt': dt, 'lay': lay} for dt, ns in (('float16', (2047, 2050, 4100)), ('bfloat16', (258, 1030)), ('float32', (2050,)))
+            for n in ns for lay in ('vec', 'last_of_2d')]
     return [
+        {'name': 'many', 'target': TARGET, 'x64': False, 'cases': many, 'chunk': 1},
         {'name': 'single', 'target': TARGET, 'x64': False, 'cases': cases, 'chunk': max(10, len(cases) // 300)},
         {'name': 'trees', 'target': TARGET, 'x64': False, 'cases': tree_cases, 'chunk': 10},
         {'name': 'pack', 'target': TARGET, 'x64': False, 'cases': pack, 'chunk': 10},
@@ -99,8 +107,8 @@ def to_np(item):
         return item[1]
     if k == 'sl':
         return slice(item[1], item[2], item[3])
-    if k in ('a1', 'a2', 'au'):
-        return np.array(item[1])
+    if k in ('a1', 'a2', 'au', 'a0'):
+        return np.array(item[1], dtype=item[2] if len(item) > 2 else None)
     if k == 'mask':
         return np.array(item[1], dtype=bool)
     if k == 'ell':
@@ -334,11 +342,47 @@ def check_pack(case, violations, counters):
     return True
 
 
+def check_many(case, violations, counters):
+    import jax
+    import jax.numpy as jnp
+    import numpy as np
+
+    from furax._base.core import CompositionOperator
+    from furax._base.diagonal import DiagonalOperator
+    from furax._base.indices import IndexOperator
+    from mc import probe as P
+
+    D = jnp.dtype(case['dt'])
+    n = case['many']
+    index = np.array([1] * n + [0, 2, 0, -1], dtype=np.int32)
+    counts = np.bincount(index % 3, minlength=3)
+    try:
+        if case['lay'] == 'vec':
+            op = IndexOperator(jnp.asarray(index), in_structure=jax.ShapeDtypeStruct((3,), D))
+            want = np.diag(np.asarray(jnp.asarray(counts, D), np.float64))
+        else:
+            op = IndexOperator((Ellipsis, jnp.asarray(index)), in_structure=jax.ShapeDtypeStruct((2, 3), D))
+            want = np.diag(np.tile(np.asarray(jnp.asarray(counts, D), np.float64), 2))
+        r = CompositionOperator([op.T, op]).reduce()
+        M = P.probe(r, cache=False).M
+        if M.shape != want.shape or not np.array_equal(M, want):
+            violations.append({'kind': 'PtP-wrong', 'case': case, 'detail': f'(P.T @ P).reduce() denotes diag {np.diag(M)} but the hit counts {counts} are {np.diag(want)} in {case["dt"]}'})
+        if not isinstance(r, DiagonalOperator):
+            violations.append({'kind': 'PtP-not-simplified', 'case': case, 'detail': f'single integer-array axis but (P.T @ P).reduce() is a {type(r).__name__}'})
+        counters['legal'] += 1
+    except P.LibError as e:
+        violations.append({'kind': 'library-raises', 'case': case, 'detail': f'{e}\n{e.tb}'})
+    except Exception as e:  # noqa: BLE001
+        err = P.LibError('index operator', e)
+        violations.append({'kind': 'library-raises', 'case': case, 'detail': f'{err}\n{err.tb}'})
+    return True
+
+
 def run(phase, cases, ctx):
     violations = []
     counters = collections.Counter()
     nontrivial = set()
-    fn = {'single': check_index, 'trees': check_tree, 'pack': check_pack}[phase]
+    fn = {'single': check_index, 'trees': check_tree, 'pack': check_pack, 'many': check_many}[phase]
     for case in cases:
         if fn(case, violations, counters):
             nontrivial.add(json.dumps(case))
